@@ -16,7 +16,10 @@ def run(ctx):
     rhd = ctx.rule('R-HEAD', 'a co_awaited Task of any head kind can be started', minimum=10)
     rnr = ctx.rule('R-NODEREUSE', 'an object registered on a shared core is registered once and its next field is not '
                    'used for anything else', minimum=4)
+    rl = ctx.rule('R-LOOPCALLER', 'Here() of a callback object that is not a BaseCore returns nullptr on every path (the '
+                  'Loop would call the returned core with that object as its caller)', minimum=15)
     for cfg, fb in sorted(fbs.items()):
+        lib_core.check_loop_caller(ctx, fb, rl)
         seen = 0
         for f in sorted(fb.fn.values(), key=lambda f: f.full):
             if f.n == 'await_ready' and f.qn.startswith('yaclib::detail::') and f.cfg is not None:
